@@ -558,6 +558,11 @@ func (tr *Trans) applyContract(ct *Contract, fn *ssa.Function, sig *types.Signat
 		tr.st.set("$wm", nwm)
 	}
 	res := tr.freshVal(resT, "res$"+shortLast(short), tr.st, tr.rc)
+	if ct.Determ && len(res.C) == 1 {
+		if t, ok := tr.determTerm(key, args, res.C[0].Sort); ok {
+			tr.e.assume(tr.rc, eq(res.C[0], t))
+		}
+	}
 	env := mkEnv(pre, tr.st.clone())
 	tr.bindResults(env, ct, sig, res)
 	if ct.NonNil && len(res.C) >= 1 {
@@ -568,6 +573,24 @@ func (tr *Trans) applyContract(ct *Contract, fn *ssa.Function, sig *types.Signat
 	}
 	tr.callerAsserts("after", short, ord, args, res, pre, tr.st)
 	return res
+}
+
+// determTerm is the uninterpreted application standing for the result of a `deterministic` function.
+func (tr *Trans) determTerm(key string, args []Val, sort Sort) (Term, bool) {
+	var as []Term
+	var sorts []Sort
+	for _, a := range args {
+		if len(a.C) != 1 {
+			return Term{}, false
+		}
+		as = append(as, a.C[0])
+		sorts = append(sorts, a.C[0].Sort)
+	}
+	f := tr.e.declareFun("det$"+sanitize(key), sorts, sort)
+	if len(as) == 0 {
+		return Term{f, sort}, true
+	}
+	return app(sort, f, as...), true
 }
 
 func shortLast(s string) string {
